@@ -17,13 +17,17 @@ class Ev(Event):
     n: int
 
 
-class Source:
+@dataclass(frozen=True)
+class Source:  # a value object: the two instances used below compare (and hash) equal
+    ident: int = 1
     a = Signal(Ev)
     b = Signal(Ev)
 
 
-QSIZE = (1, 2)  # distinct per stream: a SignalQueueFull warning names the queue size
-CONFIGS = [(("a",), None), (("a", "b"), "even")]
+QSIZES = [(1, 2), (0, 2)]  # distinct per stream: a SignalQueueFull warning names the queue size; 0 = hand-off only
+QSIZE = [1, 2]  # set per scenario
+# channels: "a"/"b" of the source, "oa" = signal `a` of ANOTHER, equal instance
+CONFIGS = [(("a",), None), (("a", "b"), "even"), (("a", "oa"), None)]
 CLOSE = ["leave normally", "exception inside the block", "consumer task cancelled"]
 
 
@@ -37,14 +41,14 @@ def options(state):
     for j in (0, 1):
         st = state[j]
         if not st["open"] and not st["used"]:
-            out += [("open", j, c) for c in (0, 1)]
+            out += [("open", j, c) for c in (0, 1, 2)]
         elif st["open"]:
             if any(passes(st, e) for e in st["queue"]) and not st["waiting"]:
                 out.append(("take", j))
             elif not st["waiting"]:
                 out.append(("wait", j))
             out += [("close", j, m) for m in (0, 1, 2)]
-    out += [("dispatch", "a"), ("dispatch", "b")]
+    out += [("dispatch", "a"), ("dispatch", "b"), ("dispatch", "oa")]
     if not state["we"]["used"]:
         out.append(("wait_event", 0))
     return out
@@ -55,6 +59,7 @@ def passes(st, e):
 
 
 def decode(a, K):
+    QSIZE[:] = QSIZES[pick(a["q0"], 2)]
     state = {j: {"open": False, "used": False, "cfg": 0, "queue": [], "waiting": False} for j in (0, 1)}
     state["we"] = {"used": False, "waiting": False}
     ops = []
@@ -98,8 +103,8 @@ def max_opts():
 
 
 class StreamActor:
-    def __init__(self, j, src, cfg):
-        self.j, self.src, self.cfg = j, src, cfg
+    def __init__(self, j, src, cfg, other):
+        self.j, self.src, self.cfg, self.other = j, src, cfg, other
         self.cmds = []
         self.wake = anyio.Event()
         self.got = []
@@ -110,7 +115,7 @@ class StreamActor:
 
     async def run(self, *, task_status):
         names, flt = CONFIGS[self.cfg]
-        signals = [getattr(self.src, nm) for nm in names]
+        signals = [getattr(self.other, "a") if nm == "oa" else getattr(self.src, nm) for nm in names]
         filt = (lambda e: e.n % 2 == 0) if flt else None
         try:
             with self.scope:
@@ -148,7 +153,7 @@ class StreamActor:
 
 def params(tier):
     K = 4 if tier == "quick" else 5
-    return [P(f"o{i}", 0, 14) for i in range(K)]
+    return [P("q0", 0, 1)] + [P(f"o{i}", 0, 17) for i in range(K)]
 
 
 @guard
@@ -182,7 +187,7 @@ def fn(a, tier):
             for step, op in enumerate(ops):
                 if op[0] == "open":
                     j, cfg = op[1], op[2]
-                    actors[j] = StreamActor(j, src, cfg)
+                    actors[j] = StreamActor(j, src, cfg, other)
                     await tg.start(actors[j].run)
                     model[j] = {"cfg": cfg, "queue": [], "waiting": False, "got": [], "open": True}
                 elif op[0] == "dispatch":
@@ -196,9 +201,12 @@ def fn(a, tier):
                     with warnings.catch_warnings(record=True) as w:
                         warnings.simplefilter("always")
                         try:
-                            getattr(src, op[1]).dispatch(ev)
-                            # an unrelated instance's channel of the same name must not interfere
-                            getattr(other, op[1]).dispatch(Ev(-n))
+                            if op[1] == "oa":
+                                other.a.dispatch(ev)
+                            else:
+                                getattr(src, op[1]).dispatch(ev)
+                                # the equal instance's channel `b` is never subscribed by anybody
+                                other.b.dispatch(Ev(-n))
                         except Exception as e:
                             problems.append((f"dispatch-raised:{type(e).__name__}", f"step {step}: {e!r}"))
                             return
@@ -206,7 +214,8 @@ def fn(a, tier):
                     if got_warn != sorted(exp_warn):
                         problems.append((f"queue-full-warnings:got={got_warn}:expected={sorted(exp_warn)}", f"step {step} {op}"))
                         return
-                    if ev.source is not src or ev.topic != op[1] or not isinstance(ev.time, (int, float)):
+                    exp_src, exp_topic = (other, "a") if op[1] == "oa" else (src, op[1])
+                    if ev.source is not exp_src or ev.topic != exp_topic or not isinstance(ev.time, (int, float)):
                         problems.append(("event-not-stamped", f"{ev.source!r} {ev.topic!r}"))
                         return
                 elif op[0] == "take":
@@ -274,7 +283,8 @@ def fn(a, tier):
             tg.cancel_scope.cancel()
 
     _, exc, k = run(main)
-    summary = {"history": [" ".join(str(x) for x in op) for op in ops], "stream_configs": "stream j: queue size %s; cfg0=[a],no filter; cfg1=[a,b],even" % (QSIZE,)}
+    summary = {"history": [" ".join(str(x) for x in op) for op in ops],
+               "stream_configs": "queue sizes %s; cfg0=[a],no filter; cfg1=[a,b],even; cfg2=[a, a of an equal other instance]" % (tuple(QSIZE),)}
     if exc is not None:
         return FAIL(f"raised:{type(exc).__name__}", repr(exc), summary)
     if problems:
@@ -287,10 +297,11 @@ H = Harness(
     name="E-history",
     fn=fn,
     params=params,
-    cube=lambda tier: 2,
+    cube=lambda tier: 3,
     title="histories of open / dispatch / take / blocking wait / close (3 ways) / wait_event over two streams and two channels",
-    bound_text=lambda tier: f"{4 if tier == 'quick' else 5} operations then a final drain; 2 streams with queue sizes 1 and 2, each opened once with "
-    "config {[a], no filter} or {[a,b], even filter}; dispatches on a/b of one instance (and, interleaved, on another instance); closing by normal exit / "
+    bound_text=lambda tier: f"{4 if tier == 'quick' else 5} operations then a final drain; 2 streams with queue sizes (1 or 0) and 2, each opened once with "
+    "config {[a], no filter}, {[a,b], even filter} or {[a, a-of-an-equal-other-instance]}; dispatches on a/b of one value-object instance and on `a` of "
+    "another instance that compares equal; closing by normal exit / "
     "exception in the block / cancellation of the consumer; one wait_event with a filter",
     oracle="after every step each stream has yielded exactly the model's sequence (eligible = dispatched on one of its signals while open and passing "
     "its filter, minus those its own full queue dropped), same objects, dispatch order; SignalQueueFull warnings name exactly the full "
